@@ -168,6 +168,9 @@ func (m *c19mon) reportLeak(where string, h c19Hit, asker *c19Case, c *c19Cl, re
 	if h.Info.Kind == "local" {
 		key = "leak-local:" + where + ":" + h.Info.KeyClass
 	}
+	if h.Info.Kind == "rejected" {
+		key = "leak-rejected-by-remote:" + where + ":" + h.Info.KeyClass
+	}
 	m.run.Violation(key, fmt.Sprintf("the value of secret parameter %q (case %d, %s submit) appears in the daemon's answer to %s",
 		c19TruncVal(h.Info.Key), h.Info.Case, h.Info.Kind, where), w)
 }
@@ -388,8 +391,11 @@ func (m *c19mon) register(cs *c19Case) {
 				if cs.Kind == "local" {
 					kind = "local"
 				}
-				if cs.Kind == "refusal" {
+				if cs.Kind == "refusal" || cs.Kind == "refusal-tlsname" {
 					kind = "refusal"
+				}
+				if cs.Kind == "remote-rejected" {
+					kind = "rejected"
 				}
 				m.reg[p.Canary] = c19Canary{Case: cs.Idx, Key: p.Key, KeyClass: p.KeyClass, Kind: kind}
 				m.run.Count("canaries_planted", 1)
@@ -413,7 +419,7 @@ func (m *c19mon) submit(cs *c19Case) {
 	}
 	defer c.Close()
 	payload := c19Payload(cs)
-	if cs.Kind == "refusal" {
+	if cs.Kind == "refusal" || cs.Kind == "refusal-tlsname" {
 		m.submitRefusal(cs, c, payload)
 		return
 	}
@@ -445,6 +451,20 @@ func (m *c19mon) submit(cs *c19Case) {
 			m.run.Inconclusive(fmt.Sprintf("case %d (%s): submit not acknowledged: %s", cs.Idx, cs.Kind, c19TruncVal(res.Ack)))
 		}
 		return
+	case "remote-rejected":
+		// positive control of the situation: A accepted and stored the unit, and the final
+		// answer reports that the start failed (B's first answer was not an acknowledgement)
+		switch {
+		case res.UnitID == "":
+			m.run.Inconclusive(fmt.Sprintf("case %d (%s/%s): valid remote submit not acknowledged by A: %s", cs.Idx, cs.Kind, cs.Reject, c19TruncVal(c19Redact(res.Ack))))
+		case !strings.HasPrefix(res.Final, "ERROR"):
+			m.run.Inconclusive(fmt.Sprintf("case %d (%s/%s): the remote node did not turn the submission down: %s", cs.Idx, cs.Kind, cs.Reject, c19TruncVal(c19Redact(res.Final))))
+		default:
+			cs.Rejected = true
+			m.run.Count("rejected_by_remote_observed", 1)
+			m.run.Count("rejected_by_remote:"+cs.Reject, 1)
+		}
+		return
 	}
 	// remote-tls / remote-plain: positive control — the unit has to start on B
 	if res.UnitID == "" {
@@ -473,10 +493,21 @@ func (m *c19mon) submit(cs *c19Case) {
 }
 
 func (m *c19mon) submitRefusal(cs *c19Case, c *c19Cl, payload []byte) {
-	m.run.Count("refusal_cases", 1)
+	// pfx/sfx: violation keys; noTLS: how the witness text describes the tlsclient field
+	pfx, sfx, noTLS := "refusal:", "", "no TLS client profile"
+	if cs.Kind == "refusal-tlsname" {
+		pfx, sfx = "refusal-tlsname:", ":"+cs.TLSClass
+		noTLS = fmt.Sprintf("tlsclient %q (%s), which is not the name of any TLS client profile", cs.TLS, cs.TLSLabel)
+		m.run.Count("tlsname_cases", 1)
+		m.run.SetAdd("tlsname_values", cs.TLSLabel)
+	} else {
+		m.run.Count("refusal_cases", 1)
+	}
 	m.subMu.Lock()
 	before := c19ListDirs(m.A.DataDir())
+	sentBefore := m.acData.Load()
 	res := c.Submit(cs.Line, payload, c19CmdTimeout)
+	sentAfter := m.acData.Load()
 	after := c19ListDirs(m.A.DataDir())
 	hits, files := m.scanTree(filepath.Join(m.A.Dir, "data"))
 	m.subMu.Unlock()
@@ -495,10 +526,18 @@ func (m *c19mon) submitRefusal(cs *c19Case, c *c19Cl, payload []byte) {
 	}
 	nsec, _ := cs.nSecrets()
 	if !strings.HasPrefix(res.Ack, "ERROR") {
-		m.run.Violation("refusal:accepted", fmt.Sprintf("remote submit to %s with %d secret parameter(s) and no TLS client profile was not refused: %s", cs.Node, nsec, c19TruncVal(res.Ack)),
+		m.run.Violation(pfx+"accepted"+sfx, fmt.Sprintf("remote submit to %s with %d secret parameter(s) and %s was not refused: %s", cs.Node, nsec, noTLS, c19TruncVal(res.Ack)),
 			map[string]any{"case": cs.witness(), "reply": c19TruncVal(res.Ack), "final": c19TruncVal(res.Final)})
+	} else if cs.Kind == "refusal-tlsname" {
+		m.run.Count("tlsname_refusals_observed", 1)
 	} else {
 		m.run.Count("refusals_observed", 1)
+	}
+	// refusal cases are serialised (subMu) and nothing else is ever addressed to C, so data
+	// datagrams that crossed the A-C link while this request was being answered belong to it
+	if cs.Kind == "refusal-tlsname" && sentAfter > sentBefore {
+		m.run.Violation(pfx+"sent"+sfx, fmt.Sprintf("remote submit to %s with %d secret parameter(s) and %s: %d data datagram(s) crossed the link between %s and %s while it was answered (reply %q)", cs.Node, nsec, noTLS, sentAfter-sentBefore, c19A, c19C, c19TruncVal(res.Ack)),
+			map[string]any{"case": cs.witness(), "reply": c19TruncVal(res.Ack), "final": c19TruncVal(res.Final), "data_datagrams": sentAfter - sentBefore})
 	}
 	newDirs := []string{}
 	for d := range after {
@@ -513,7 +552,7 @@ func (m *c19mon) submitRefusal(cs *c19Case, c *c19Cl, payload []byte) {
 			m.reportedOrphan[d] = true
 		}
 		m.ackMu.Unlock()
-		m.run.Violation("refusal:stored-unit-dir", fmt.Sprintf("remote submit with a secret and no TLS client profile (reply %q) left unit director%s %v in A's data directory", c19TruncVal(res.Ack), map[bool]string{true: "y", false: "ies"}[len(newDirs) == 1], newDirs),
+		m.run.Violation(pfx+"stored-unit-dir"+sfx, fmt.Sprintf("remote submit with a secret and %s (reply %q) left unit director%s %v in A's data directory", noTLS, c19TruncVal(res.Ack), map[bool]string{true: "y", false: "ies"}[len(newDirs) == 1], newDirs),
 			map[string]any{"case": cs.witness(), "reply": c19TruncVal(res.Ack), "new_dirs": newDirs})
 	}
 	mine := map[string]bool{}
@@ -524,7 +563,7 @@ func (m *c19mon) submitRefusal(cs *c19Case, c *c19Cl, payload []byte) {
 	}
 	for i, h := range hits {
 		if mine[h.Canary] {
-			m.run.Violation("refusal:canary-on-disk", fmt.Sprintf("remote submit with a secret and no TLS client profile (reply %q): the secret value of %q was written to %s", c19TruncVal(res.Ack), c19TruncVal(h.Info.Key), strings.TrimPrefix(files[i], m.dir)),
+			m.run.Violation(pfx+"canary-on-disk"+sfx, fmt.Sprintf("remote submit with a secret and %s (reply %q): the secret value of %q was written to %s", noTLS, c19TruncVal(res.Ack), c19TruncVal(h.Info.Key), strings.TrimPrefix(files[i], m.dir)),
 				map[string]any{"case": cs.witness(), "reply": c19TruncVal(res.Ack), "file": files[i], "canary": h.Canary})
 			break
 		}
@@ -659,7 +698,7 @@ func (m *c19mon) batchEnd(batch []*c19Case, bi int) {
 	refusals := []any{}
 	anySubmitErr := false
 	for _, cs := range batch {
-		if cs.Kind == "refusal" {
+		if cs.Kind == "refusal" || cs.Kind == "refusal-tlsname" {
 			refusals = append(refusals, cs.witness())
 		}
 		if cs.submitErr {
@@ -803,12 +842,19 @@ func runC19(tier string, _ []string) {
 		"status / list / list <id> (plain and JSON, Unix and TCP, on A and on B for the remote unit) / cancel / release / force-release commands " +
 		"with a SIGKILL restart of A and/or B between the two halves of every batch. A case is distinct by (kind, key spellings present, number " +
 		"of secrets, bucket of non-secrets, TLS yes/no, kinds of follow-up commands answered, restart event) and counts as non-trivial only if it " +
-		"planted at least one canary and daemon output for it was actually scanned.")
+		"planted at least one canary and daemon output for it was actually scanned. Every batch additionally carries (a) remote submissions with " +
+		"secrets and the valid TLS profile which the executing node turns down in its first answer (unknown work type there, runtime params not " +
+		"allowed there, signature missing, signature not expected), so that the unit stays on A as a failed unit whose submit reply and later " +
+		"status / list answers (also after the restart) are searched like all others, and (b) submissions with secrets whose tlsclient field is " +
+		"present and non-empty but not the name of a TLS client profile (white space only in ASCII and Unicode, the valid name padded with white " +
+		"space, case / prefix / suffix variants of it, unknown names), which must be refused with nothing stored and no data datagram towards C.")
 	run.Assume("a secret value is recognised by its 32-hex canary core, so the search covers the raw and every escaped spelling of the surrounding characters; partial or transformed (e.g. hashed) disclosure is not searched for")
 	run.Assume("non-secret parameters never share a value with a secret one (otherwise 'reported unchanged' and 'never appears' would contradict each other)")
 	run.Assume("'begins with secret_ in any letter case' is read with ASCII case folding; keys whose first letters are non-ASCII look-alikes are non-secret")
 	run.Assume("clause 2 (non-secret parameters unchanged) is judged on ExtraData.RemoteParams of the submitting node's status/list answers, compared after JSON decoding")
 	run.Assume("'sent' is judged on a dedicated link: the refused submissions are addressed to a daemon to which nothing else is ever submitted, and any type-0 datagram on that link is a witness (mesh sessions are QUIC-encrypted, so link bytes cannot be searched); refused submissions naming B or an unknown node are judged on reply, directory diff and disk content only")
+	run.Assume("a tlsclient value names a TLS client profile only if it is, byte for byte, the name of a profile configured on the submitting node; white space is not trimmed and letter case is not folded by the reader of the statement")
+	run.Assume("a submission that the executing node turns down is still a submitted unit of the submitting node until it is released: its submit reply and status / list answers fall under the non-disclosure clause")
 	run.Assume("local submissions (node = own id / localhost) are a labelled class judged by the non-disclosure clause only; daemon log files are scanned as a diagnostic counter only")
 
 	dir := filepath.Join(workDir(), "c19")
@@ -858,6 +904,12 @@ func runC19(tier string, _ []string) {
 	// contains the non-secret key "params" is accepted and the unit really starts.
 	gen := genWork()
 	gen.AllowRuntime = true
+	// B can turn a forwarded submission down for four reasons: two extra work types (no runtime
+	// params / signature demanded) need a verification key on B; A can sign (signwork=true)
+	signPriv, signPub, err := c19SigningKeys(dir)
+	if err != nil {
+		fail("could not create the work-signing key pair: " + err.Error())
+	}
 	// ports are picked before the daemon binds them; on a busy machine another process can
 	// take one in between, so the first start is retried with fresh ports
 	startFresh := func(cfg ctl.Cfg) *ctl.Daemon {
@@ -876,7 +928,7 @@ func runC19(tier string, _ []string) {
 		fail(fmt.Sprintf("daemon %s did not start: %v\n%s", cfg.ID, err, d.OutTail(1500)))
 		return nil
 	}
-	m.B = startFresh(ctl.Cfg{ID: c19B, Dir: filepath.Join(dir, "b"), TCPCtl: true, Listen: true, Work: []ctl.WorkCmd{gen}, NoService: true,
+	m.B = startFresh(ctl.Cfg{ID: c19B, Dir: filepath.Join(dir, "b"), TCPCtl: true, Listen: true, Work: append([]ctl.WorkCmd{gen}, c19RejectWork(gen)...), NoService: true, VerifyKey: signPub,
 		Extra: []string{"--tls-server", "name=" + c19Srv, "cert=" + certs["bcrt"], "key=" + certs["bkey"],
 			"--control-service", "service=control", "tls=" + c19Srv}})
 	m.C = startFresh(ctl.Cfg{ID: c19C, Dir: filepath.Join(dir, "c"), Listen: true, Work: []ctl.WorkCmd{gen}})
@@ -901,13 +953,15 @@ func runC19(tier string, _ []string) {
 		fail("proxy: " + err.Error())
 	}
 	m.A = startFresh(ctl.Cfg{ID: c19A, Dir: filepath.Join(dir, "a"), TCPCtl: true, Peers: []string{m.tapAB.Addr, m.tapAC.Addr, m.tapAD.Addr}, Work: []ctl.WorkCmd{gen},
-		Extra: []string{"--tls-client", "name=" + c19Cli, "rootcas=" + certs["ca"], "cert=" + certs["acrt"], "key=" + certs["akey"]}})
+		Extra: []string{"--tls-client", "name=" + c19Cli, "rootcas=" + certs["ca"], "cert=" + certs["acrt"], "key=" + certs["akey"],
+			"--work-signing", "privatekey=" + signPriv, "tokenexpiration=10m"}})
 	if !m.waitRoutes() {
 		fail("A never learnt routes to B and C")
 	}
 
 	nCases := run.Pick(60, 1500)
 	batchSize := run.Pick(20, 60)
+	nRej, nTLS := run.Pick(4, 8), run.Pick(7, 10) // extra cases per batch (c19x.go)
 	cases := make([]*c19Case, nCases)
 	for i := range cases {
 		cases[i] = c19GenCase(run.Seed, run.Tier, i, run.Quick())
@@ -918,7 +972,7 @@ func runC19(tier string, _ []string) {
 		if hi > nCases {
 			hi = nCases
 		}
-		batch := cases[lo:hi]
+		batch := append(append([]*c19Case{}, cases[lo:hi]...), c19ExtraCases(run.Seed, run.Tier, bi, nRej, nTLS, run.Quick())...)
 		event := ""
 		switch bi {
 		case 0:
@@ -986,6 +1040,9 @@ func runC19(tier string, _ []string) {
 			if nc > 0 && cs.Scanned > 0 && !cs.submitErr {
 				conclusive := true
 				if (cs.Kind == "remote-tls" || cs.Kind == "remote-plain") && !cs.Started {
+					conclusive = false
+				}
+				if cs.Kind == "remote-rejected" && !cs.Rejected {
 					conclusive = false
 				}
 				if conclusive {
